@@ -112,7 +112,7 @@ func be32any(v *big.Int) []byte { // low 32 bytes, big-endian
 	return append(make([]byte, 32-len(b)), b...)
 }
 
-var c06XClasses = []string{"valid", "valid", "valid_neg", "alias_x+p", "nonsubgroup", "offcurve", "const", "uniform", "valid_bitflip", "y_near_half"}
+var c06XClasses = []string{"valid", "valid", "valid_neg", "alias_x+p", "nonsubgroup", "offcurve", "const", "uniform", "valid_bitflip", "y_near_half", "y_dyadic"}
 
 // genX32 draws 32 bytes for the x half by class.
 func genX32(t *rapid.T) (b []byte, class string, pt hx.RPt) {
@@ -144,11 +144,43 @@ func genX32(t *rapid.T) (b []byte, class string, pt hx.RPt) {
 			xv.Sub(ref.P, xv).Mod(xv, ref.P)
 		}
 		b = be32any(xv)
+	case "y_dyadic": // a point whose ordinate has a STRUCTURED 2-adic component (y = g^e * u, e by blocks): the square root taken by the decoder meets the rare branches of the table-driven discrete log
+		b = comp[:]
+		for k := uint64(0); k < 40; k++ {
+			e := uint32(seed >> 8)
+			switch seed % 4 {
+			case 0:
+				e &= 0xff000000
+			case 1:
+				e = e&0x00ff0000 | 0xff000000*uint32(seed>>40&1)
+			case 2:
+				e <<= 23
+			}
+			y := c17Case{Kind: "dyadic", E: e, Seed: seed + k}.value()
+			if xv := xFromY(y); xv != nil {
+				b = be32any(xv)
+				break
+			}
+		}
 	case "valid_bitflip":
 		b = append([]byte(nil), comp[:]...)
 		b[rapid.IntRange(0, 31).Draw(t, "flip_byte")] ^= 1 << rapid.IntRange(0, 7).Draw(t, "flip_bit")
 	}
 	return
+}
+
+// xFromY solves the curve equation for x given y (nil if there is no such point): x^2 = (1 - y^2) / (a - d*y^2).
+func xFromY(y *big.Int) *big.Int {
+	y2 := new(big.Int).Mul(y, y)
+	num := new(big.Int).Sub(big.NewInt(1), y2)
+	den := new(big.Int).Sub(ref.CurveA, new(big.Int).Mul(ref.CurveD, y2))
+	den.Mod(den, ref.P)
+	if den.Sign() == 0 {
+		return nil
+	}
+	x2 := num.Mul(num, new(big.Int).ModInverse(den, ref.P))
+	x2.Mod(x2, ref.P)
+	return new(big.Int).ModSqrt(x2, ref.P)
 }
 
 func genC06(t *rapid.T) c06Case {
@@ -294,6 +326,14 @@ func evalC06(c c06Case, rec *hx.Rec) error {
 					ierr = fmt.Errorf("nil element without error")
 				} else {
 					e = *p
+					// what a decoder returns belongs to the caller: it is overwritten, and the same bytes are decoded again
+					p.Add(p, &banderwagon.Generator)
+					p.Double(p)
+					if p2, err2 := common.ReadPoint(bytes.NewReader(in)); err2 != nil || p2 == nil {
+						ierr = fmt.Errorf("decoding the same bytes a second time failed: %v", err2)
+					} else {
+						e = *p2
+					}
 				}
 			}
 		}
